@@ -443,6 +443,14 @@ func specOp(op runtime.Operation, k bool) runtime.Operation {
 
 func lexOK(l *lexer) bool { return len(l.src) <= len(l.text) }
 
+// Every byte offset the lexer reports is len(l.text)-len(l.src): it is an
+// offset into the file only as long as l.text is the file, i.e. no function
+// of the package assigns the field after the lexer is built (scan drops the
+// reference when it is done, after the last token).
+//@ frame lexer.text
+//@   props C21
+//@   opt allow (*lexer).scan: l.text = nil
+
 func specAttrCtx(c ast.Context) int {
 	if c == ast.ContextQuotedAttr || c == ast.ContextUnquotedAttr {
 		return 1
@@ -1256,3 +1264,66 @@ func specEntryOK(imp *ast.Import, k int) bool { return imp != nil && (k == 0 || 
 //@     invariant forall(0, len(imports), func(k int) bool { return specEntryOK(imports[k], k) })
 //@   loop 4
 //@     invariant forall(0, len(imports), func(k int) bool { return specEntryOK(imports[k], k) })
+
+// ---------------------------------------------------------------------------
+// emitter_util.go (C01: conversions). Moving a value between registers of
+// different static types must go through the instruction that implements the
+// Go conversion: OpConvert truncates, sign- or zero-extends and changes
+// representation; a plain move keeps the 64 register bits. The contract fixes
+// which instruction _changeRegister emits for every combination of kinds:
+// indirect destination or boxing into an interface -> Typify; different kinds
+// (or markdown to html) -> Convert, of the source kind to the destination type;
+// same kind -> Move (or nothing when source and destination coincide).
+// ---------------------------------------------------------------------------
+
+//@ func (*emitter)._changeRegister
+//@   props X00 C01
+//@   opt puremethods Kind GoType
+//@   opt track emitConvert emitMove emitTypify
+//@   panics allowed
+//@   requires em != nil && em.fb != nil && srcType != nil && dstType != nil
+//@   ensures[C01] dst < 0 ==> called("emitTypify") && !called("emitConvert") && !called("emitMove")
+//@   ensures[C01] dst >= 0 && dstType.Kind() == reflect.Interface && srcType.Kind() == reflect.Interface ==> called("emitMove") && !called("emitConvert") && !called("emitTypify")
+//@   ensures[C01] dst >= 0 && dstType.Kind() == reflect.Interface && srcType.Kind() != reflect.Interface ==> called("emitTypify") && !called("emitConvert") && !called("emitMove")
+//@   ensures[C01] dst >= 0 && dstType.Kind() != reflect.Interface && (dstType.Kind() != srcType.Kind() || mdToHTML) ==> called("emitConvert") && !called("emitTypify")
+//@   ensures[C01] dst >= 0 && dstType.Kind() != reflect.Interface && (dstType.Kind() != srcType.Kind() || mdToHTML) && !k ==> !called("emitMove")
+//@   ensures[C01] dst >= 0 && dstType.Kind() != reflect.Interface && dstType.Kind() == srcType.Kind() && !mdToHTML ==> !called("emitConvert") && !called("emitTypify") && (called("emitMove") == (k || src != dst))
+
+// ---------------------------------------------------------------------------
+// C09, JavaScript and JSON contexts. The renderer (showInJS, showInJSON) has
+// one way to fail with "cannot show": the key of a map is converted with
+// fmt.Stringer, native.EnvStringer or toString, and toString knows the kinds
+// Bool..Complex128 and String only (every other unknown value is written as an
+// `undefined` comment, not an error). So the static table must accept a map
+// type only if its KEY type is of one of those kinds or implements one of the
+// two interfaces. The recursion reaches every map type nested in the shown
+// type through this same function, so the postcondition on one call covers
+// nested maps by induction on the type.
+// ---------------------------------------------------------------------------
+
+func specMapKeyOK(k reflect.Type) bool {
+	return k.Kind() == reflect.String || reflect.Bool <= k.Kind() && k.Kind() <= reflect.Complex128 ||
+		k.Implements(stringerType) || k.Implements(envStringerType)
+}
+
+func specJSEarly(t reflect.Type) bool {
+	return reflect.Bool <= t.Kind() && t.Kind() <= reflect.Float64 || t.Kind() == reflect.String || t == timeType ||
+		t.Implements(jsStringerType) || t.Implements(jsEnvStringerType) || t.Implements(errorType)
+}
+
+func specJSONEarly(t reflect.Type) bool {
+	return reflect.Bool <= t.Kind() && t.Kind() <= reflect.Float64 || t.Kind() == reflect.String || t == timeType ||
+		t.Implements(jsonStringerType) || t.Implements(jsonEnvStringerType) || t.Implements(errorType)
+}
+
+//@ func checkShowJS
+//@   props X00 C09
+//@   opt puremethods Kind Key Elem Implements NumField Field
+//@   panics allowed
+//@   ensures[C09] result == nil && t.Kind() == reflect.Map && !specJSEarly(t) && !slices.Contains(types, t) ==> specMapKeyOK(t.Key())
+
+//@ func checkShowJSON
+//@   props X00 C09
+//@   opt puremethods Kind Key Elem Implements NumField Field
+//@   panics allowed
+//@   ensures[C09] result == nil && t.Kind() == reflect.Map && !specJSONEarly(t) && !slices.Contains(types, t) ==> specMapKeyOK(t.Key())
